@@ -26,7 +26,9 @@ type parkCtl struct {
 // panics raised inside a transaction closure, rolls the transaction back and returns the error.
 type errInjected struct{ site string }
 
-func (e errInjected) Error() string { return "verif: injected fault inside the transaction at " + e.site }
+func (e errInjected) Error() string {
+	return "verif: injected fault inside the transaction at " + e.site
+}
 
 var curPark *parkCtl
 
